@@ -170,24 +170,24 @@ def check_buffer_loop(rep, prog):
     ok = len(loops) == 1 and loops[0].kind == "while"
     if ok:
         L = loops[0]
-        lvs = [x for x in walk(L.cond) if isinstance(x, Sym) and x.kind == "loopvar"]
-        cnd = subst(L.cond, {lvs[0]: Const(32)}) if lvs else L.cond
-        okc = equivalent(pelx.ite(cnd, Const(1), Const(0)), pelx.ite(compare("lt", Const(32), IntF(20, 4)), Const(1), Const(0)))[0]
-        body = I.events[L.events[0]:L.events[1]]
-        reads = [e for e in body if e.kind == "opaquecall" and e.data[0] == TR + "TraceEntry.read"]
-        news = [e for e in body if e.kind == "new" and e.data[0] == TR + "TraceEntry"]
-        apps = [e for e in body if e.kind == "append"]
-        brks = [e for e in body if e.kind == "break"]
-        ok = okc and len(reads) == 1 and len(news) == 1 and len(apps) == 1 and len(brks) == 1
+        # (the test of the entry's read() may sit in the body with a break, or in the loop condition itself)
+        inl = [e for e in I.events if L in e.loops]
+        reads = [e for e in inl if e.kind == "opaquecall" and e.data[0] == TR + "TraceEntry.read"]
+        news = [e for e in inl if e.kind == "new" and e.data[0] == TR + "TraceEntry"]
+        apps = [e for e in inl if e.kind == "append"]
+        ok = len(reads) == 1 and len(news) == 1 and len(apps) == 1
         if ok:
             rd = Op("call:" + TR + "TraceEntry.read", *reads[0].data[1])
-            base = getattr(L, "body_guard_full", set())
-
-            def rel(g):
-                return and_(*[c for c in (g.args if isinstance(g, Op) and g.op == "and" else [g]) if c not in base])
-            gb, ga = rel(brks[0].guard), rel(apps[0].guard)
-            ok = implies(gb, not_(rd))[0] and implies(not_(rd), gb)[0] and implies(ga, rd)[0] and implies(rd, ga)[0] and apps[0].data[1] == news[0].data[1] \
-                and reads[0].data[1][-1] == st
+            cont = and_(L.cond, *[not_(s_) for s_ in L.stops])
+            lvs = [x for x in walk(cont) if isinstance(x, Sym) and x.kind == "loopvar"]
+            cont32 = subst(cont, {lvs[0]: Const(32)}) if lvs else cont
+            want = and_(compare("lt", Const(32), IntF(20, 4)), rd)
+            okc = implies(cont32, want)[0] and implies(want, cont32)[0]
+            cj = lambda g_: set(g_.args) if isinstance(g_, Op) and g_.op == "and" else {g_}
+            extra = and_(*[c_ for c_ in (apps[0].guard.args if isinstance(apps[0].guard, Op) and apps[0].guard.op == "and" else (apps[0].guard,))
+                           if c_ not in cj(news[0].guard)])        # what the append depends on beyond "this iteration runs"
+            ok = okc and implies(apps[0].guard, rd)[0] and implies(cont, extra)[0] and apps[0].data[1] == news[0].data[1] \
+                and reads[0].data[1][-1] == st and reads[0].seq < apps[0].seq
     rep.check(ok, rule, "entries are read while index < header size; stop at the first entry whose read() fails; one append per good entry, in order",
               "TraceBuffer.read", "while stream.index < self.header.size", "the entry loop does not read fresh entries up to the declared size and "
               "stop at the first malformed one")
@@ -214,8 +214,37 @@ def check_strings(rep, prog):
     h = Sym("h", "int")
     r = I.method(sfr, "get_trace_string", [h])
     loops = [L for L in I.loops.values() if L.func == TR + "TraceStringFile.get_trace_string"]
+    # which string a hash gets: the summary of the search is run on sample string lists (several exact and partial
+    # candidates in different orders) - however the scan is written (one pass, two passes, next() over generators)
+    stubs = {"m:is_match": lambda s_, x_: s_[0] == x_, "m:is_partial_match": lambda s_, x_: s_[0] != x_ and s_[0] % 100000 == x_ % 100000,
+             "call:" + TR + "TraceString.is_match": lambda s_, x_: s_[0] == x_,
+             "call:" + TR + "TraceString.is_partial_match": lambda s_, x_: s_[0] != x_ and s_[0] % 100000 == x_ % 100000}
+    lists = [[], [(5, "a")], [(5, "a"), (100005, "b"), (7, "c"), (5, "d"), (200005, "e")], [(300007, "p"), (100007, "q"), (7, "r"), (200007, "s")],
+             [(92602121, "x"), (92702121, "y"), (2121, "z"), (92602121, "w")]]
+    bad = None
+    ran = 0
+    try:
+        for strs in lists:
+            for hv in (5, 100005, 200005, 300005, 7, 100007, 8, 2121, 92602121, 192602121, 102121):
+                env = pelx.with_heap(I, {STRS: strs, h: hv, Op("len", STRS): len(strs), Op("truthy", STRS): bool(strs)})
+                env["__ops__"] = stubs
+                got = evaluate(r, env)
+                ex_ = [s_ for s_ in strs if s_[0] == hv]
+                pa_ = [s_ for s_ in strs if s_[0] != hv and s_[0] % 100000 == hv % 100000]
+                want = ex_[0] if ex_ else (pa_[-1] if pa_ else None)
+                ran += 1
+                if got != want and bad is None:
+                    bad = "hash %d in the string list %s finds %r, documented %r (first exact match, else the LAST partial match)" % (hv, strs, got, want)
+    except CannotEval:
+        ran = 0
+    if ran:
+        rep.count("string look-up samples evaluated", ran)
+        rep.check(bad is None, rule, "an exact hash match wins (first in file order); otherwise the LAST partially matching string; None if there is none",
+                  "TraceStringFile.get_trace_string", "get_trace_string", bad)
+        return check_strings_rest(rep, prog, rule, h)
     if len(loops) != 1:
-        return check_strings_indexed(rep, prog, rule)
+        check_strings_indexed(rep, prog, rule)
+        return check_strings_rest(rep, prog, rule, h)
     L = loops[0]
     el = Op("elem", STRS, L.idx)
     ism = Op("m:is_match", el, h)
@@ -233,6 +262,10 @@ def check_strings(rep, prog):
               "if trace_string.is_match(hash_value): return trace_string", "exact matches are not returned at once from a scan in file order: %r" % (r,))
     rep.check(okp, rule, "otherwise the LAST partially matching string is returned (None if there is none)", "TraceStringFile.get_trace_string",
               "partial_match = trace_string", "the partial-match fallback is not 'last partial match wins': %r" % ([c[1] for c in carried],))
+    check_strings_rest(rep, prog, rule, h)
+
+
+def check_strings_rest(rep, prog, rule, h):
     # predicates
     I2 = Interpreter(prog)
     ts = I2.new(TR + "TraceString", [Sym("hv", "int"), Sym("mf"), Sym("loc")])
@@ -269,28 +302,18 @@ def check_strings(rep, prog):
     a = I2.method(e2r, "get_args")
     items = list_items(I2, a) or []
     bad = None
-    alts = []          # (condition, items) alternatives of the returned value
-    def collect(v, cond):
-        if isinstance(v, Ite):
-            collect(v.a, and_(cond, v.c))
-            collect(v.b, and_(cond, not_(v.c)))
-        elif isinstance(v, Ref) and list_items(I2, v) is not None:
-            alts.append((cond, list_items(I2, v)))
-        elif isinstance(v, Const) and isinstance(v.v, tuple):
-            alts.append((cond, [("v", Const(x), TRUE) for x in v.v]))
-        else:
-            raise AnalysisError("get_args returns something that is not a summarised tuple/list: %r" % (v,))
-    collect(a, TRUE)
     nval = 0
     for n in (0, 3, 4, 7, 8, 12, 19, 20, 23, 24, 64):
         buf = bytes(range(1, n + 1))
         for tg in (0x4654, 0x4644):
-            env = {ED: buf, Op("len", ED): n, tag: tg}
+            env = pelx.with_heap(I2, {ED: buf, Op("len", ED): n, tag: tg, Op("truthy", ED): bool(buf)})
             try:
-                live = [its for cond, its in alts if bool(evaluate(cond, env))]
-                got = pelx.eval_items(live[0], env) if len(live) == 1 else None
+                got = evaluate(a, env)
+                got = list(got) if isinstance(got, (list, tuple)) else got
             except CannotEval as e:
                 raise AnalysisError("get_args summary not evaluable: %s" % e)
+            except Exception as e:
+                got = "<raises %s: %s>" % (type(e).__name__, e)
             nval += 1
             want = [] if tg == 0x4644 else [int.from_bytes(buf[4 * k:4 * k + 4], "big") for k in range(min(5, n // 4))]
             if got != want:
@@ -322,7 +345,8 @@ def check_strings(rep, prog):
                    "", "\n", "abc||x||y\n", "5||a||b||c||d||e.c(3)\n", " 001 ||  padded  ||  loc  \n", "9||||\n", "3|| %% done||f.c(2)\r\n",
                    "4||one|two||g.c(7)\n", "18446744073709551616||big||h.c(1)\n", "6 ||tab\there||i.c(9)\n"]
         for smp in samples:
-            env = {line: smp}
+            env = pelx.with_heap(I3, {line: smp})
+            env["__inloops__"] = frozenset(l_.lid for l_ in N.loops)       # evaluated within one iteration of the line loop
             try:
                 made = bool(evaluate(N.guard, env))
                 got = tuple(evaluate(a, env) for a in N.data[2]) if made else None
